@@ -357,6 +357,15 @@ func (ex *Exec) valEq(st *State, a, b Value, t types.Type) *Term {
 		if !ok || x.Sort != y.Sort {
 			return Var(ex.G.name("eq"), SBool)
 		}
+		if x.Sort == SB {
+			// the empty string is the only byte string of length 0
+			if l := ex.G.BLen(y); l.IsConstInt() && l.I.Sign() == 0 {
+				return Eq(ex.G.BLen(x), IntC(0))
+			}
+			if l := ex.G.BLen(x); l.IsConstInt() && l.I.Sign() == 0 {
+				return Eq(ex.G.BLen(y), IntC(0))
+			}
+		}
 		return Eq(x, y)
 	case *StructV:
 		y, ok := b.(*StructV)
@@ -817,12 +826,43 @@ func hasNilLeaf(shape Value) bool {
 	return false
 }
 
+// freshStored creates an unknown value read back from a container: pointers and (non-error) interfaces
+// inside it are non-nil. The matching obligation "no nil is stored" is emitted at every MapUpdate.
+func (ex *Exec) freshStored(t types.Type, hint string) Value {
+	save := ex.G.nonNil
+	ex.G.nonNil = true
+	defer func() { ex.G.nonNil = save }()
+	return ex.G.Fresh(t, hint)
+}
+
+func (ex *Exec) nonNilLeaves(v Value) *Term {
+	switch x := v.(type) {
+	case *PtrV:
+		return Not(x.Nil)
+	case *IfaceV:
+		return Neq(x.ID, IntC(0))
+	case *StructV:
+		c := TTrue
+		for i, f := range x.F {
+			if _, isErr := f.(*IfaceV); isErr && isErrorType(x.T.Field(i).Type()) {
+				continue
+			}
+			c = And(c, ex.nonNilLeaves(f))
+		}
+		return c
+	}
+	return TTrue
+}
+
 func (ex *Exec) mapUpdate(st *State, fr *Frame, v *ssa.MapUpdate) {
 	m, ok := ex.eval(fr, v.Map).(*MapV)
 	if !ok {
 		return
 	}
 	ex.safety(st, "nilmap", Not(m.Nil), v, v.Map)
+	if mt, ok := v.Map.Type().Underlying().(*types.Map); ok && sortOf(mt.Elem()) == "" {
+		ex.safety(st, "container-nonnil", ex.nonNilLeaves(ex.eval(fr, v.Value)), v, v.Value)
+	}
 	ms := ex.mapState(st, m)
 	if ms == nil {
 		return
@@ -875,7 +915,7 @@ func (ex *Exec) lookup(st *State, fr *Frame, v *ssa.Lookup) {
 			sel := shapeSelect(ms.Vals, k)
 			val = ex.iteVal(has, sel, ex.G.Zero(et), et)
 		} else {
-			val = ex.G.Fresh(et, "mapval")
+			val = ex.iteVal(has, ex.freshStored(et, "mapval"), ex.G.Zero(et), et)
 		}
 	}
 	if v.CommaOk {
@@ -933,7 +973,7 @@ func (ex *Exec) next(st *State, fr *Frame, v *ssa.Next) {
 	var kv, vv Value
 	kt, vt := tup.At(1).Type(), tup.At(2).Type()
 	kv = ex.G.Fresh(kt, "rk")
-	vv = ex.G.Fresh(vt, "rv")
+	vv = ex.freshStored(vt, "rv")
 	if m != nil {
 		if ms := ex.mapState(st, m); ms != nil {
 			if k, ok := kv.(*Term); ok && k.Sort == arrKeySort(ms.Has.Sort) {
